@@ -1,87 +1,3 @@
-// ================= C13 quoting: reader of ONE shell word (POSIX XCU 2.2 Quoting, 2.3 Token Recognition, 2.6.1 Tilde; bash manual
-// 3.1.2.4 ANSI-C Quoting), written from those texts — NOT from brush's or bash's parser.  `None` = the text is not read back as
-// exactly one literal word.  History expansion (`!`) is off, as it is for `eval` in a script.
-pub open spec fn unquoted_special(c: char) -> bool {
-    // 2.2: | & ; < > ( ) $ ` \ " ' <space> <tab> <newline>
-    c == '|' || c == '&' || c == ';' || c == '<' || c == '>' || c == '(' || c == ')' || c == '$' || c == '`' || c == '\\' || c == '"' || c == '\'' || c == ' ' || c == '\t' || c == '\n'
-    // 2.2 "may need to be quoted": * ? [ # ~  (pathname expansion, comment, tilde); bash: { } , ! ^ (brace and history expansion)
-    || c == '*' || c == '?' || c == '[' || c == '#' || c == '~' || c == '{' || c == '}' || c == ',' || c == '!' || c == '^'
-}
-// special only as the FIRST character of a word: '#' starts a comment (2.3 rule 9), '~' a tilde-prefix (2.6.1)
-pub open spec fn special_at_start_only(c: char) -> bool { c == '#' || c == '~' }
-pub open spec fn cons(c: char, r: Option<Seq<char>>) -> Option<Seq<char>> { match r { Some(v) => Some(seq![c] + v), None => None } }
-pub open spec fn cat(a: Seq<char>, r: Option<Seq<char>>) -> Option<Seq<char>> { match r { Some(v) => Some(a + v), None => None } }
-pub open spec fn cons2(c: char, r: Option<(Seq<char>, Seq<char>)>) -> Option<(Seq<char>, Seq<char>)> { match r { Some((v, rest)) => Some((seq![c] + v, rest)), None => None } }
-// 2.2.2 single quotes: everything up to the next ' is literal
-pub open spec fn sq_scan(w: Seq<char>) -> Option<(Seq<char>, Seq<char>)> decreases w.len() {
-    if w.len() == 0 { None } else if w[0] == '\'' { Some((Seq::empty(), w.skip(1))) } else { cons2(w[0], sq_scan(w.skip(1))) }
-}
-// 2.2.3 double quotes: \ keeps its meaning only before $ ` " \ <newline>; an unescaped $ or ` is not literal
-pub open spec fn dq_special(c: char) -> bool { c == '$' || c == '`' || c == '"' || c == '\\' }
-pub open spec fn dq_scan(w: Seq<char>) -> Option<(Seq<char>, Seq<char>)> decreases w.len() {
-    if w.len() == 0 { None }
-    else if w[0] == '"' { Some((Seq::empty(), w.skip(1))) }
-    else if w[0] == '\\' {
-        if w.len() >= 2 && dq_special(w[1]) { cons2(w[1], dq_scan(w.skip(2))) }
-        else if w.len() >= 2 && w[1] == '\n' { dq_scan(w.skip(2)) }
-        else { cons2('\\', dq_scan(w.skip(1))) }
-    }
-    else if w[0] == '$' || w[0] == '`' { None }
-    else { cons2(w[0], dq_scan(w.skip(1))) }
-}
-// bash 3.1.2.4 $'...': named escapes, \nnn = one to three octal digits; \xHH \uHHHH \UHHHHHHHH \cx are not modelled (None).
-// An octal value of 0 ends the string (NUL) and one above 0x7f is a raw byte, not a character: neither reads back as a char.
-pub open spec fn is_oct(c: char) -> bool { '0' <= c && c <= '7' }
-pub open spec fn oct_val(c: char) -> int { c as int - '0' as int }
-pub open spec fn ansi_named(e: char) -> Option<char> {
-    if e == 'a' { Some('\x07') } else if e == 'b' { Some('\x08') } else if e == 'e' || e == 'E' { Some('\x1b') } else if e == 'f' { Some('\x0c') }
-    else if e == 'n' { Some('\n') } else if e == 'r' { Some('\r') } else if e == 't' { Some('\t') } else if e == 'v' { Some('\x0b') }
-    else if e == '\\' { Some('\\') } else if e == '\'' { Some('\'') } else if e == '"' { Some('"') } else if e == '?' { Some('?') } else { None }
-}
-pub open spec fn oct_len(w: Seq<char>) -> int {    // how many of the first (at most 3) chars are octal digits
-    if w.len() >= 1 && is_oct(w[0]) { if w.len() >= 2 && is_oct(w[1]) { if w.len() >= 3 && is_oct(w[2]) { 3 } else { 2 } } else { 1 } } else { 0 }
-}
-pub open spec fn oct_value(w: Seq<char>, n: int) -> int {
-    if n == 1 { oct_val(w[0]) } else if n == 2 { oct_val(w[0]) * 8 + oct_val(w[1]) } else { oct_val(w[0]) * 64 + oct_val(w[1]) * 8 + oct_val(w[2]) }
-}
-pub open spec fn ansi_scan(w: Seq<char>) -> Option<(Seq<char>, Seq<char>)> decreases w.len() {
-    if w.len() == 0 { None }
-    else if w[0] == '\'' { Some((Seq::empty(), w.skip(1))) }
-    else if w[0] == '\\' {
-        if w.len() < 2 { None }
-        else if ansi_named(w[1]) is Some { cons2(ansi_named(w[1])->Some_0, ansi_scan(w.skip(2))) }
-        else if is_oct(w[1]) {
-            let n = oct_len(w.skip(1));
-            let v = oct_value(w.skip(1), n);
-            if 0 < v && v < 0x80 { cons2(v as char, ansi_scan(w.skip(1 + n))) } else { None }
-        }
-        else { None }
-    }
-    else { cons2(w[0], ansi_scan(w.skip(1))) }
-}
-// 2.2/2.3: one word, read left to right
-pub open spec fn read_unq(w: Seq<char>, at_start: bool) -> Option<Seq<char>> decreases w.len() {
-    if w.len() == 0 { Some(Seq::empty()) }
-    else if w[0] == '\\' {
-        if w.len() < 2 { None }                                     // a trailing backslash does not form a complete word
-        else if w[1] == '\n' { read_unq(w.skip(2), at_start) }       // 2.2.1 line continuation: both characters are removed
-        else { cons(w[1], read_unq(w.skip(2), false)) }
-    }
-    else if w[0] == '\'' {
-        match sq_scan(w.skip(1)) { Some((v, rest)) => if rest.len() < w.len() { cat(v, read_unq(rest, false)) } else { None }, None => None }
-    }
-    else if w[0] == '"' {
-        match dq_scan(w.skip(1)) { Some((v, rest)) => if rest.len() < w.len() { cat(v, read_unq(rest, false)) } else { None }, None => None }
-    }
-    else if w[0] == '$' && w.len() >= 2 && w[1] == '\'' {
-        match ansi_scan(w.skip(2)) { Some((v, rest)) => if rest.len() < w.len() { cat(v, read_unq(rest, false)) } else { None }, None => None }
-    }
-    else if unquoted_special(w[0]) && (!special_at_start_only(w[0]) || at_start) { None }
-    else { cons(w[0], read_unq(w.skip(1), false)) }
-}
-// the text `w`, given to the shell as (part of) a command line, is exactly one word whose value is v
-pub open spec fn reads_as(w: Seq<char>, v: Seq<char>) -> bool { w.len() > 0 && read_unq(w, true) == Some(v) }
-
 // ================= writers as "one piece per element" concatenations, and the round trip of each against the reader
 pub open spec fn flat_rb<A>(s: Seq<A>, f: spec_fn(int, A) -> Seq<char>, base: int) -> Seq<char> decreases s.len() {
     if s.len() == 0 { Seq::empty() } else { flat_rb(s.drop_last(), f, base) + f(base + s.len() - 1, s.last()) }
